@@ -104,6 +104,10 @@ def observe(args):
         use = {k: (flipped[k] if st.get('flip') else specs[k]) for k in SPECS}
         for full in (False, True):
             sn = sns[full]
+            if st.get('toggle_full'):
+                # full_cost is an attribute read at get_cost() time: flip it AFTER construction on the wrapper built with the other value
+                sn = sns[not full]
+                sn.full_cost = full
             # cost specification re-assigned on the LIVE wrapper (variants differ only in `shared`)
             if st.get('flip') == 'dict':
                 sn.cost_specification = {k: flipped[k] for k in SPECS}
@@ -112,18 +116,24 @@ def observe(args):
             elif st.get('reassign_orig'):
                 sn.cost_specification = dict(specs)
             sn.train() if st['train'] else sn.eval()
-            G.set_alpha(d, sn, st['alphas'], torch)
+            if st.get('frozen') is not None:
+                sn.train_selection = not st['frozen']
+            G.set_alpha(d, sn, st['alphas'], torch, st.get('write', 'copy'))
             combs = G.combiners(d, sn)
-            for b, c in combs.items():
-                c.hard_softmax = st['hard'][b]
+            if not st.get('ctor'):      # ctor: hard_softmax as given to the SuperNetModule constructor, nothing is called
+                for b, c in combs.items():
+                    c.hard_softmax = st['hard'][b]
             for c in combs.values():
                 c.softmax_temperature = st['temp'] if st['temp'] is not None else 1
             if st.get('via_update') is not None:
                 sn.update_softmax_options(hard=st['via_update'])
             torch.manual_seed(st['seed'])
             try:
-                with torch.no_grad():
+                if st.get('grad'):
                     sn(x)
+                else:
+                    with torch.no_grad():
+                        sn(x)
                 if st.get('after'):   # options changed AFTER the forward pass: the cost must follow the coefficients sampled by that pass
                     kw = {k: v for k, v in st['after'].items() if v is not None}
                     sn.update_softmax_options(**kw)
@@ -156,6 +166,8 @@ def observe(args):
                     o['export_exc'] = None
                 except Exception as e_:  # noqa
                     o['export_exc'] = 'EXC:%s:%s' % (type(e_).__name__, str(e_)[:160])
+        for f0 in (False, True):     # constructed values back
+            sns[f0].full_cost = f0
         out['obs'].append(o)
     return out
 
@@ -201,10 +213,16 @@ def gen_settings(rng, d, quick):
     sts = []
 
     def st(alphas, train, hard, temp, via=None):
-        sts.append({'alphas': alphas, 'train': train, 'hard': hard, 'temp': temp, 'via_update': via, 'seed': rng.randrange(1 << 30)})
+        sts.append({'alphas': alphas, 'train': train, 'hard': hard, 'temp': temp, 'via_update': via, 'seed': rng.randrange(1 << 30),
+                    'write': rng.choice(G.WRITE_METHODS), 'grad': rng.random() < 0.25, 'frozen': rng.random() < 0.3, 'toggle_full': rng.random() < 0.3})
     cfg_hard = [b['hard'] for b in d['blocks']]
     rand_alpha = lambda: [G.gen_alpha(rng, k, rng.randrange(k), tie=rng.random() < 0.1) for k in nbr]
-    st([[1.0 / k] * k for k in nbr], False, cfg_hard, None)                      # as constructed, uniform coefficients
+    # options exactly as given to the SuperNetModule constructors (hard_softmax with / without gumbel_softmax): nothing called before
+    st([[1.0 / k] * k for k in nbr], False, cfg_hard, None)
+    sts[-1].update({'ctor': True, 'toggle_full': False})
+    for _ in range(2):
+        st(rand_alpha(), False, cfg_hard, None)
+        sts[-1]['ctor'] = True
     st(rand_alpha(), False, [False] * len(nbr), rng.choice([None, 0.5, 5.0]))    # soft, eval
     st(rand_alpha(), True, [False] * len(nbr), rng.choice([None, 0.1, 2.0]))     # soft / Gumbel-soft, train
     st(rand_alpha(), False, [True] * len(nbr), rng.choice([None, 0.05, 20.0]))   # hard, eval
@@ -318,6 +336,8 @@ def run(ctx):
                 'metrics params (shared) and ops (per invocation) x full_cost off/on; settings per network: constructed options at uniform coefficients, soft eval, soft/Gumbel train, '
                 'hard eval, hard/Gumbel-hard train, update_softmax_options(hard=...), temperatures {.05,.1,.5,1,2,5,20}, coefficients = distinct multiples of 1/16 (10% ties), '
                 '5 sequences forward -> update_softmax_options(hard / temperature) -> get_cost WITHOUT a new forward (soft pass then hard flag, hard pass then soft flag; cost compared on the theta_alpha observed at that moment), '
+                'the first 3 settings use the options exactly as given to the SuperNetModule constructors (hard_softmax with and without gumbel_softmax), nothing called before; coefficients written by no_grad copy_ / .data = / .data.copy_ / .data[i] = / a new nn.Parameter after the previous forward; forward with or without autograd, selection frozen or not; '
+                '30% of the settings flip full_cost AFTER construction (False->True on the wrapper built without it and True->False on the other) and compare with the from-scratch values; '
                 '4 settings per network re-assign cost_specification on the LIVE wrapper to variants that differ only in `shared` (built-in functions, flipped flag; dict, dict, single spec, back), compared with a freshly constructed SuperNet and with the model; '
                 'networks alternate all-Gumbel / no-Gumbel / mixed blocks so that every gumbel x hard x train/eval combination gets a forward pass then a cost; hard + deterministic (eval, or no Gumbel block) => cost = exported network; '
                 'a NEAR-TIE stream per network (unique raw maximum 1/2/4 float32 ulps or 1e-6 above a runner-up, T in {.05,1,20,100}, hard: the exported network must cost what the raw arg-max selection costs), '
@@ -356,13 +376,18 @@ def run(ctx):
         table = parse_table(res['table'])
         bcs = branch_costs(d, table, 'params')
         nontriv = any(len(set(v)) > 1 for v in bcs.values())
-        for st, o in zip(sts, res['obs']):
+        for si, (st, o) in enumerate(zip(sts, res['obs'])):
             mode = ('fwd-then-update(hard=%s)-then-cost:' % st['after']['hard'] if st.get('after') else '') + ('train' if st['train'] else 'eval') + ('/hard' if all(st['hard']) else '/soft' if not any(st['hard']) else '/mixed') + ('/gumbel' if any(b['gumbel'] for b in d['blocks']) else '')
             ctx.case((strip(d), o.get('theta')), nontrivial=nontriv, kind=tag + ':' + mode,
                      sample={'n_branches': [len(b['branches']) for b in d['blocks']], 'chain': d['chain'], 'mode': mode, 'theta': o.get('theta'), 'get_cost': o['cost'], 'exported_from_scratch': o['scratch']})
             gum = {b['gumbel'] for b in d['blocks']}
             if len(gum) == 1 and len(set(st['hard'])) == 1 and st.get('via_update') is None and not st.get('after'):
                 ctx.dist['combination gumbel=%s hard=%s %s' % (gum.pop(), st['hard'][0], 'train' if st['train'] else 'eval')] += 1
+            if st.get('toggle_full'):
+                ctx.dist['full_cost flipped after construction (both directions)'] += 1
+            if st.get('ctor'):
+                ctx.dist['options as constructed: hard=%s gumbel=%s' % (sorted(set(st['hard'])), sorted({b['gumbel'] for b in d['blocks']}))] += 1
+            ctx.dist['coefficients written by %s' % st.get('write', 'copy')] += 1
             if st.get('flip') or st.get('reassign_orig'):
                 ctx.dist['cost_specification re-assigned on the live SuperNet: %s' % (st.get('flip') or 'back to the original dict')] += 1
                 ctx.extra['spec_reassignment_cases'] = ctx.extra.get('spec_reassignment_cases', 0) + 1
@@ -371,7 +396,10 @@ def run(ctx):
                 ctx.dist['near-tie gap %s T=%s' % (st['neartie']['gap'], st['temp'])] += 1
             if o.get('export_exc'):
                 ctx.dist['export raised (C03), exported-cost sentence skipped'] += 1
+            nf = len(fails)
             check_obs(d, table, st, o, fails, tag)
+            for _, inf in fails[nf:]:
+                inf['history'] = sts[:si]
             if not o['exc']:
                 flat.append((ni, d, table, st, o))
     for key, info in fails:
@@ -441,20 +469,22 @@ def run(ctx):
 
 
 def replay(r):
-    print(json.dumps({k: v for k, v in r.items() if k not in ('desc', 'observed')}, indent=1, default=str)[:2500])
+    print(json.dumps({k: v for k, v in r.items() if k not in ('desc', 'observed', 'history')}, indent=1, default=str)[:2500])
     if 'desc' not in r or 'setting' not in r:
         print('no failing input in this replay file')
         return 1
     d = G.finish_desc(dict(r['desc']))
     st = r['setting']
-    res = observe((d, [st]))
+    hist = r.get('history') or []
+    res = observe((d, hist + [st]))
     if res['import_exc']:
         print('SuperNet(...) raised', res['import_exc'])
         return 1
     fails = []
-    check_obs(d, parse_table(res['table']), st, res['obs'][0], fails, 'replay')
+    check_obs(d, parse_table(res['table']), st, res['obs'][-1], fails, 'replay')
     print('required: get_cost = sum over blocks of theta-weighted branch costs (+ fixed layers with full_cost), within [cheapest, dearest] selection, and under hard selection = the metric of the exported network')
-    print('observed:', res['obs'][0])
+    print('(after replaying %d earlier cases on the same wrappers)' % len(hist))
+    print('observed:', res['obs'][-1])
     for key, info in fails:
         print('FAILS:', key, '-', info['what'])
     return 1 if fails else 0
